@@ -178,19 +178,34 @@ def snapshot(s: Sweep):
 # strategies
 
 
-_LEN = st.sampled_from([0] + [1] * 3 + [2] * 5 + [3] * 5)  # ~7 % empty lists per group
+def _chance(draw, k: int, n: int) -> bool:
+    """True with probability ~k/n; the common case (False) is the one Hypothesis treats as simplest."""
+    return draw(st.sampled_from([False] * (n - k) + [True] * k))
+
+
+def _lengths(p_empty_percent: int):
+    # list lengths 0..3; the empty list is rare and is *not* the simplest choice
+    rest = 100 - p_empty_percent
+    return st.sampled_from([2] * (rest * 2 // 5) + [3] * (rest * 2 // 5) + [1] * (rest // 5) + [0] * p_empty_percent)
 
 
 @st.composite
-def sweep_recipe(draw, pool, tag="", min_keys=0, max_keys=4, exact=False, extras=True, allow_const=True, allow_excl=True):
+def sweep_recipe(draw, pool, tag="", min_keys=0, max_keys=4, exact=False, extras=True, allow_const=True,
+                 allow_excl=True, p_empty=7):  # fmt: skip
     pool = list(draw(st.permutations(list(pool))))
-    n = len(pool) if exact else draw(st.integers(min_keys, min(max_keys, len(pool))))
+    hi = min(max_keys, len(pool))
+    if exact:
+        n = len(pool)
+    else:
+        choices = [k for k in range(max(1, min_keys), hi + 1)] * 8 + ([0] if min_keys == 0 else [])
+        n = draw(st.sampled_from(choices))
     keys = pool[:n]
+    _LEN = _lengths(p_empty)
     mode = draw(st.sampled_from(["none", "none", "ordered", "ordered", "ordered", "free", "free", "free"])) if n else "none"
     if mode == "ordered" or mode == "none":
         groups = []
         for k in keys:
-            if groups and mode == "ordered" and draw(st.integers(0, 2)) == 0:
+            if groups and mode == "ordered" and _chance(draw, 2, 5):
                 groups[-1].append(k)
             else:
                 groups.append([k])
@@ -205,7 +220,11 @@ def sweep_recipe(draw, pool, tag="", min_keys=0, max_keys=4, exact=False, extras
     for g in groups:
         length = draw(_LEN)
         for k in g:
-            values[k] = [f"{k}{draw(st.integers(0, 2))}" for _ in range(length)]
+            if draw(st.booleans()):  # distinct values in a drawn order
+                idx = list(draw(st.permutations([0, 1, 2])))[:length]
+            else:  # values may repeat
+                idx = [draw(st.sampled_from([0, 1, 2])) for _ in range(length)]
+            values[k] = [f"{k}{i}" for i in idx]
     items = [[k, values[k]] for k in keys]
     if mode == "none":
         dims = None
@@ -215,12 +234,12 @@ def sweep_recipe(draw, pool, tag="", min_keys=0, max_keys=4, exact=False, extras
     if not extras:
         return rec
     avail = list(keys)
-    if allow_const and draw(st.integers(0, 2)) == 0:
-        names = draw(st.lists(st.sampled_from(keys + [f"k{tag}0", f"k{tag}1"]), min_size=0, max_size=2, unique=True))
+    if allow_const and _chance(draw, 2, 5):
+        names = draw(st.lists(st.sampled_from([f"k{tag}0", f"k{tag}1"] + keys), min_size=0, max_size=2, unique=True))
         rec["constants"] = {nm: f"K{j}" for j, nm in enumerate(names)}
         avail += [nm for nm in names if nm not in avail]
-    if draw(st.integers(0, 2)) == 0:
-        cand = avail + [f"d{tag}0", f"d{tag}1"]
+    if _chance(draw, 1, 2):
+        cand = [f"d{tag}0", f"d{tag}1"] + avail
         names = draw(st.lists(st.sampled_from(cand), min_size=1, max_size=2, unique=True))
         ders = []
         for nm in names:
@@ -230,10 +249,10 @@ def sweep_recipe(draw, pool, tag="", min_keys=0, max_keys=4, exact=False, extras
                 avail.append(nm)
         rec["derivers"] = ders
         rec["via_add"] = draw(st.booleans())
-    if allow_excl and avail and draw(st.integers(0, 2)) == 0:
+    if allow_excl and avail and _chance(draw, 1, 2):
         key = draw(st.sampled_from(avail))
         seen = sorted({c[key] for c in ref_combos(rec, empty_identity=True)})
-        value = draw(st.sampled_from(seen + ["zz"])) if seen else "zz"
+        value = draw(st.sampled_from(["zz"] + seen + seen)) if seen else "zz"
         rec["exclude"] = {"key": key, "value": value}
     return rec
 
@@ -244,8 +263,10 @@ def product_case(draw):
     pool = list(draw(st.permutations(list("abcdef"))))
     ops = []
     for i in range(n_ops):
-        lo = 0 if draw(st.integers(0, 24)) == 0 else 1
-        ops.append(draw(sweep_recipe(pool[2 * i : 2 * i + 2], tag=str(i), min_keys=lo, max_keys=2)))
+        if _chance(draw, 1, 30):
+            ops.append(draw(sweep_recipe([], tag=str(i), exact=True)))  # a sweep without items
+        else:
+            ops.append(draw(sweep_recipe(pool[2 * i : 2 * i + 2], tag=str(i), min_keys=1, max_keys=2, p_empty=4)))
     return {"ops": ops, "mode": draw(st.sampled_from(["variadic", "variadic", "chained"]))}
 
 
@@ -254,8 +275,10 @@ def sum_case(draw):
     n_ops = draw(st.sampled_from([2, 2, 3]))
     ops = []
     for i in range(n_ops):
-        lo = 0 if draw(st.integers(0, 19)) == 0 else 1
-        ops.append(draw(sweep_recipe("abc", tag=str(draw(st.integers(0, 1))), min_keys=lo, max_keys=3)))
+        if _chance(draw, 1, 25):
+            ops.append(draw(sweep_recipe([], tag=str(i), exact=True)))  # a sweep without items
+        else:
+            ops.append(draw(sweep_recipe("abc", tag=str(i), min_keys=1, max_keys=3)))
     return {"ops": ops, "mode": draw(st.sampled_from(["add", "multisweep", "combine", "nested"]))}
 
 
@@ -270,17 +293,17 @@ def filtered_case(draw):
 @st.composite
 def count_case(draw):
     prog = draw(
-        dag_programs(max_funcs=4, min_funcs=2, allow_bound=False, allow_defaults=False, allow_renames=True,
+        dag_programs(max_funcs=4, min_funcs=3, allow_bound=False, allow_defaults=False, allow_renames=True,
                      allow_multi=True, allow_nullary=False)
     )  # fmt: skip
-    rec = draw(sweep_recipe(prog["roots"], exact=True))
+    rec = draw(sweep_recipe(prog["roots"], exact=True, p_empty=3))
     return {
         "prog": prog,
         "sweep": rec,
-        "pick": draw(st.integers(0, 7)),
+        "pick": draw(st.sampled_from([0, 0, 0, 1, 1, 2, 3])),  # index into the outputs sorted by #dependencies (desc)
         "whole_tuple": draw(st.booleans()),
-        "as_list": draw(st.booleans()),
-        "use_pandas": draw(st.integers(0, 3)) == 0,
+        "as_list": _chance(draw, 1, 3),
+        "use_pandas": _chance(draw, 1, 4),
     }
 
 
@@ -390,7 +413,7 @@ def check_len(out: Outcome, tag: str, sweep, got_list: list, n_empty_items: int,
         return
     if n == len(got_list):
         return
-    if n_empty_items and n - len(got_list) == n_empty_items:
+    if n_empty_items and 0 < n - len(got_list) <= n_empty_items:
         # confirmed deviation: Sweep({}) has len 1 but lists nothing
         out.fail("len-empty-items-reports-1", f"{ctx} len {n} list {show(got_list)}")
     else:
@@ -520,9 +543,10 @@ def body_product(data) -> Outcome:
                     break
             if explained:
                 break
-        if explained:
-            for nm in explained:
-                out.fail(nm, f"{data} got {show(got)} want {show(ref)}")
+        if explained and len(explained) == 1:
+            out.fail(explained[0], f"{data} got {show(got)} want {show(ref)}")
+        elif explained:
+            out.fail("product-several-confirmed-deviations-at-once", f"{list(explained)} {data} got {show(got)}")
         else:
             compare_lists(out, "product", got, ref, False, data)
     n_empty = 1 if not any(r["items"] for r in ops) else 0
@@ -640,7 +664,17 @@ def body_filtered(data) -> Outcome:
             out.fail("filtered_sweep-keeps-duplicates-of-repeated-item-value", ctx)
         else:
             out.fail("filtered_sweep-keeps-duplicate-projections", ctx)
-    check_len(out, "filtered_sweep", fs, got, 0, data)
+    if rec["derivers"] and not full:
+        # confirmed deviation: the derivers branch builds Sweep({}, dims=[keys]) whose __len__ looks up items[keys[0]]
+        try:
+            if len(fs) != len(got):
+                out.fail("filtered_sweep-len-differs-from-list", ctx)
+        except KeyError as e:
+            out.fail("filtered_sweep-of-empty-derivers-sweep-len-raises-KeyError", f"{data} {exc_detail(e)}")
+        except Exception as e:
+            out.fail(exc_bucket(e, "filtered_sweep-len-raised"), f"{data} {exc_detail(e)}")
+    else:
+        check_len(out, "filtered_sweep", fs, got, 0, data)
     if snapshot(s) != snap:
         out.fail("filtered_sweep-mutated-receiver", f"{snap} -> {snapshot(s)}")
     try:
@@ -655,7 +689,7 @@ def body_count(data) -> Outcome:
     out = Outcome(units=0)
     prog, rec = data["prog"], data["sweep"]
     model = DagModel(prog)
-    outs = model.all_outputs()
+    outs = sorted(model.all_outputs(), key=lambda o: -len(model.cone(o)))
     name = outs[data["pick"] % len(outs)]
     fn = model.producer[name]
     request = tuple(fn["outs"]) if (data["whole_tuple"] and len(fn["outs"]) > 1) else name
